@@ -21,7 +21,7 @@ CONSTANTS N, Variant
 Threads == 1..N
 
 VARIABLES fails,      \* the workers whose ensure_cm raises (fixed by the world)
-          pc,         \* worker -> "start" | "ensure" | "release" | "search" | "done" | "unwind" | "raised"
+          pc,         \* worker -> "queued" | "cancelled" | "start" | "ensure" | "release" | "search" | "done" | "unwind" | "raised"
           holder,     \* 0 = lock free, else the worker holding it
           cmReady,    \* the covariance model files are in place
           main,       \* "collect" | "shutdown_ok" | "shutdown_err" | "exit_ok" | "exit_err"
@@ -29,13 +29,20 @@ VARIABLES fails,      \* the workers whose ensure_cm raises (fixed by the world)
           printed     \* entries printed so far, in order
 vars == <<fails, pc, holder, cmReady, main, next, printed>>
 
-Terminal(t) == pc[t] \in {"done", "raised"}
+Terminal(t) == pc[t] \in {"done", "raised", "cancelled"}
 AllTerminal == \A t \in Threads : Terminal(t)
 
 Init == /\ fails \in SUBSET Threads
-        /\ pc = [t \in Threads |-> "start"] /\ holder = 0 /\ cmReady = FALSE
+        /\ pc = [t \in Threads |-> "queued"] /\ holder = 0 /\ cmReady = FALSE
         /\ main = "collect" /\ next = 1 /\ printed = <<>>
 
+\* the pool picks the entry up (a free pool thread starts the worker function)
+Start(t) == /\ pc[t] = "queued" /\ pc' = [pc EXCEPT ![t] = "start"]
+            /\ UNCHANGED <<fails, holder, cmReady, main, next, printed>>
+\* Start and Acquire in one step (for logs, which have no event for Start)
+StartAcquire(t) == /\ pc[t] = "queued" /\ holder = 0
+                   /\ holder' = t /\ pc' = [pc EXCEPT ![t] = "ensure"]
+                   /\ UNCHANGED <<fails, cmReady, main, next, printed>>
 Acquire(t) == /\ pc[t] = "start" /\ holder = 0
               /\ holder' = t /\ pc' = [pc EXCEPT ![t] = "ensure"]
               /\ UNCHANGED <<fails, cmReady, main, next, printed>>
@@ -61,7 +68,9 @@ Collect == /\ main = "collect" /\ next <= N /\ Terminal(next)
            /\ IF pc[next] = "done"
               THEN printed' = Append(printed, next) /\ next' = next + 1 /\ main' = main
               ELSE main' = "shutdown_err" /\ UNCHANGED <<next, printed>>
-           /\ UNCHANGED <<fails, pc, holder, cmReady>>
+           \* the result iterator of executor.map cancels what has not been picked up yet when it re-raises
+           /\ pc' = IF pc[next] = "done" THEN pc ELSE [t \in Threads |-> IF pc[t] = "queued" THEN "cancelled" ELSE pc[t]]
+           /\ UNCHANGED <<fails, holder, cmReady>>
 CollectDone == /\ main = "collect" /\ next = N + 1 /\ main' = "shutdown_ok"
                /\ UNCHANGED <<fails, pc, holder, cmReady, next, printed>>
 \* leaving `with ThreadPoolExecutor()`: waits for every worker
@@ -71,10 +80,10 @@ Shutdown == /\ main \in {"shutdown_ok", "shutdown_err"} /\ AllTerminal
 Exited == main \in {"exit_ok", "exit_err"}
 Finished == Exited /\ UNCHANGED vars
 
-Worker(t) == Acquire(t) \/ EnsureOk(t) \/ EnsureFail(t) \/ ReleaseUnwind(t) \/ Release(t) \/ Search(t)
+Worker(t) == Start(t) \/ Acquire(t) \/ EnsureOk(t) \/ EnsureFail(t) \/ ReleaseUnwind(t) \/ Release(t) \/ Search(t)
 Next == (\E t \in Threads : Worker(t)) \/ Collect \/ CollectDone \/ Shutdown \/ Finished
 Spec == Init /\ [][Next]_vars
-FairSpec == Spec /\ WF_vars(Next) /\ \A t \in Threads : SF_vars(Acquire(t))
+FairSpec == Spec /\ WF_vars(Next) /\ \A t \in Threads : SF_vars(Acquire(t)) /\ WF_vars(Start(t))
 
 \* ------------------------------------------------------------------ properties
 \* ensure_cm never runs twice at once, and the lock is held exactly by the worker inside that section
